@@ -36,6 +36,7 @@ class TimedTransport(SimTransport):
         self.mode = None          # None | ("gp",) | ("echo",) | ("output",)
         self.armed = False
         self.owners = []          # thread name of every transport call that reached the device
+        self.delayed = False
 
     def arm(self, mode):
         self.mode, self.armed = mode, False
@@ -49,6 +50,17 @@ class TimedTransport(SimTransport):
             else:
                 self.armed = True
         elif self.armed and channel_input == b"\n":
+            if self.mode[0] == "delay":
+                # the device answers this return only after a while: the operation holds the lock meanwhile
+                late = self.device.on_write(b"\n")
+                self.armed, delay, self.mode = False, self.mode[1], None
+                self.owners.append(threading.current_thread().name)
+                self.silent = True
+                SimTransport.write(self, channel_input)
+                self.silent = False
+                self.delayed = True
+                threading.Timer(delay, lambda: self.buf.extend(late)).start()
+                return
             self.silent, self.armed, self.mode = True, False, None
         self.owners.append(threading.current_thread().name)
         SimTransport.write(self, channel_input)
@@ -99,6 +111,8 @@ def main(sc):
     t.buf.clear()
     lock = conn.channel.channel_lock
     out = {"lock_type": type(lock).__name__}
+    if sc.get("waiter"):
+        return waiter_scenario(sc, conn, t, lock, out)
     hk, hwhen = sc["hung"]
     hspec = {"gp": ["gp"], "si": ["si", MARK], "sir": ["sir", MARK], "int": ["int", ["show c0e0", MARK]]}[hk]
     qspecs = []
@@ -132,9 +146,51 @@ def main(sc):
     out["lock_locked_after"] = lock.locked()
     out["transport_alive_after"] = t.isalive()
     somebody_stuck = hung.is_alive() or any(c.is_alive() for c in queued)
-    # phase 2: re-open and use the connection with two fresh callers at once
-    out["phase2"] = None
-    if not somebody_stuck and not lock.locked():
+    out["phase2"] = phase2(conn, t, lock, tmo, slack) if not somebody_stuck and not lock.locked() else None
+    return out
+
+
+def waiter_scenario(sc, conn, t, lock, out):
+    """a caller's timeout expires while it WAITS for the lock: the holder's operation is slow (device answers after
+    a_delay, its own timeout_ops is a_timeout), the waiter and the callers after it run with the small timeout_ops"""
+    tmo, slack = sc["timeout_ops"], sc.get("slack", 8.0)
+    conn.channel._base_channel_args.timeout_ops = sc["a_timeout"]
+    holder_spec = ["si", MARK]
+    holder = Caller("holder", op(conn, holder_spec))
+    t.arm(("delay", sc["a_delay"]))
+    holder.start()
+    lim = time.time() + 5
+    while time.time() < lim and not (lock.locked() and t.delayed):
+        time.sleep(0.005)
+    conn.channel._base_channel_args.timeout_ops = tmo      # read by the decorator when an operation is called
+    wk = sc["hung"][0]
+    wspec = ["gp"] if wk == "gp" else [wk, "show c1o0"]
+    waiter = Caller("waiter", op(conn, wspec))
+    qspecs = [["gp"] if q[0] == "gp" else [q[0], f"show c{i + 2}o0"] for i, q in enumerate(sc["queued"])]
+    queued = [Caller(f"queued{i}", op(conn, s)) for i, s in enumerate(qspecs)]
+    out["lock_held_while_hung"] = bool(lock.locked() and t.delayed)
+    t_w = time.time()
+    waiter.start()
+    time.sleep(0.02)
+    for q in queued:
+        q.start()
+    deadline = t_w + tmo + slack
+    for c in [waiter, holder] + queued:
+        c.join(max(0.0, deadline - time.time()))
+    out["hung"] = report(waiter, t_w)
+    out["queued"] = [dict(report(holder, t_w), spec=holder_spec)] + [dict(report(c, t_w), spec=s) for c, s in zip(queued, qspecs)]
+    out["lock_locked_after"] = lock.locked()
+    out["transport_alive_after"] = t.isalive()
+    stuck = waiter.is_alive() or holder.is_alive() or any(c.is_alive() for c in queued)
+    out["phase2"] = phase2(conn, t, lock, tmo, slack) if not stuck and not lock.locked() else None
+    return out
+
+
+def phase2(conn, t, lock, tmo, slack):
+    """re-open and use the connection with two fresh callers at once"""
+    out = {}
+    somebody_stuck = False
+    if True:
         t.arm(None)
         t.silent = False
         t.device = CliDevice("cisco_iosxe", hostname="r1", outputs=lambda mode, line: ("out<%s>" % line) if line else None)   # a new session
@@ -153,9 +209,8 @@ def main(sc):
         for o in t.owners[n0:]:
             if not order or order[-1] != o:
                 order.append(o)
-        out["phase2"] = {"callers": [dict(report(c, t2), spec=s) for c, s in zip(fresh, specs)], "lock_locked": lock.locked(),
-                         "owner_blocks": len(order), "owners": len(set(order))}
-    return out
+        return {"callers": [dict(report(c, t2), spec=s) for c, s in zip(fresh, specs)], "lock_locked": lock.locked(),
+                "owner_blocks": len(order), "owners": len(set(order))}
 
 
 if __name__ == "__main__":
